@@ -87,6 +87,9 @@ class LocIndexer(Indexer):
 
     def _loc(self, iindexer, cindexer):
         if iindexer is None or isinstance(iindexer, slice) and iindexer == slice(None):
+            if cindexer is None:
+                # ``ddf.loc[:]`` selects everything
+                return new_collection(self.obj.expr)
             if not isinstance(cindexer, Callable):
                 return new_collection(Projection(self.obj, cindexer))
         if isinstance(iindexer, Series):
